@@ -498,6 +498,12 @@ def finish(res, checker_cmd, assumptions=()):
             print(f"# {v['what']}")
             print(f'VIOLATION property={prop} replay={path}{tail}')
         exit_code = 1
+    try:
+        from . import reflect as _R
+        if _R.REFLECT_FALLBACK:
+            res.notes['message_classes_not_understood_by_reflection_pinned_shape_used'] = list(_R.REFLECT_FALLBACK)
+    except Exception:
+        pass
     ev = {
         'property_id': prop, 'tier': res.tier, 'seed': res.seed, 'level': 'proof',
         'coverage': {
